@@ -145,7 +145,7 @@ theorem C05_model_covers_overrides :
 
 /-! ### Non-vacuity: concrete states meeting the hypotheses -/
 
-def idEnv : Env Int := { v := fun _ x => .ok x, eq := (· == ·), sort := fun l => l.mergeSort (· ≤ ·) }
+def idEnv : Env Int := { v := fun _ x => .ok x, eq := (· == ·), sort := fun _ l => l.mergeSort (· ≤ ·) }
 
 /-- `x[4:0:-2] = [8, 9]` on a length-5 list: a reversed extended slice. -/
 example :
